@@ -57,7 +57,10 @@ def gen_case(rng, depth=None):
         raw.append(r)
     root = None if rng.random() < 0.3 else {k: rng.choice(WIDTHS) for k in ["hbits", "pbits"] if rng.random() < 0.7}
     pts = points_of(tree, depth, shapes, rng)
-    return {"tree": tree, "d": d, "shapes": shapes, "raw": raw, "root": root, "points": pts}
+    # the tensor's OWN per-rank format attribute (Tensor.setFormat) is independent of the
+    # specification: a missing spec field must default to "C" whatever the tensor declares
+    tfmt = [rng.choice(["C", "C", "U"]) for _ in range(depth)]
+    return {"tree": tree, "d": d, "shapes": shapes, "raw": raw, "root": root, "points": pts, "tfmt": tfmt}
 
 
 def points_of(tree, depth, shapes, rng):
@@ -109,6 +112,7 @@ def nontrivial(case):
 def describe(case):
     return {"depth": len(case["shapes"]),
             "explicit_default": U.has_explicit_default(case["tree"], case["d"]),
+            "tensor_declares_U": "U" in (case.get("tfmt") or []),
             "empty_subfiber": U.has_empty_sub(case["tree"], case["d"]),
             "any_U": any((r or {}).get("format") == "U" for r in case["raw"]),
             "missing_rank_spec": any(r is None for r in case["raw"])}
@@ -135,6 +139,8 @@ def run_impl(case):
     depth = len(case["shapes"])
     T = U.build_tensor(case["tree"], depth, case["shapes"], case["d"])
     ids = T.getRankIds()
+    for rid, f in zip(ids, case.get("tfmt") or []):
+        T.setFormat(rid, f)
     spec = {}
     for rid, r in zip(ids, case["raw"]):
         if r is not None:
